@@ -1060,6 +1060,46 @@ func c20GenWorld(c *Ctx) *world {
 		w.vals = append(w.vals, cty.SetValFromValueSet(s))
 		w.byKind[KSet] = append(w.byKind[KSet], len(w.vals)-1)
 	}
+	// large collections: sorting, hashing and growth code changes behaviour with size (library sorts switch
+	// algorithm above a dozen elements; append growth leaves other spare capacities), and only many members make
+	// several of them unordered among themselves (unknown strings with different refinements)
+	if c.G(3) == 0 {
+		n := 13 + c.G(28)
+		var strs []cty.Value
+		for i := 0; i < n; i++ {
+			strs = append(strs, cty.StringVal(fmt.Sprintf("m%02d", (i*7)%n)))
+		}
+		unk := []cty.Value{
+			cty.UnknownVal(cty.String).Refine().StringPrefixFull("alpha-").NewValue(),
+			cty.UnknownVal(cty.String).Refine().StringPrefixFull("beta-").NewValue(),
+			cty.UnknownVal(cty.String).RefineNotNull(),
+			cty.UnknownVal(cty.String),
+			cty.UnknownVal(cty.String).Refine().NotNull().StringPrefixFull("gamma-").NewValue(),
+		}
+		withUnk := append(append([]cty.Value{}, strs...), unk[:2+c.G(4)]...)
+		m := map[string]cty.Value{}
+		for i, sv := range strs {
+			m[sv.AsString()] = cty.NumberIntVal(int64(i % 5))
+		}
+		big := []struct {
+			k Kind
+			v cty.Value
+		}{{KSet, cty.SetVal(withUnk)}, {KSet, cty.SetVal(strs)}, {KList, cty.ListVal(withUnk)}, {KMap, cty.MapVal(m)}, {KTuple, cty.TupleVal(withUnk)}, {KObject, cty.ObjectVal(m)}}
+		for _, b := range big {
+			if c.G(2) == 0 {
+				w.vals = append(w.vals, b.v)
+				w.byKind[b.k] = append(w.byKind[b.k], len(w.vals)-1)
+			}
+		}
+		if c.G(2) == 0 {
+			s := cty.NewValueSet(cty.String)
+			for _, x := range withUnk {
+				s.Add(x)
+			}
+			w.sets = append(w.sets, s)
+		}
+		c.Probe("c20.large-collections")
+	}
 	// shared conversions: from the type of a pool value to a drawn or derived target
 	nConv := c.G(5)
 	for i := 0; i < nConv; i++ {
